@@ -16,6 +16,26 @@ def ops0 : Ops where
   subscr := fun a _ => .ok a
   call := fun f _ => .ok f
   comp := fun _ _ => .ok .none
+  -- second version: the simplest sensible semantics of displays, unpacking, keyword calls and formatting
+  mkSet := fun xs => .ok (.set xs)
+  iter := fun v => match v with
+    | .list xs => .ok xs
+    | .tuple xs => .ok xs
+    | .set xs => .ok xs
+    | _ => .error "TypeError"
+  dictEmpty := .dict [] []
+  dictSet := fun d k v => match d with
+    | .dict ks vs => .ok (.dict (ks ++ [k]) (vs ++ [v]))
+    | _ => .error "TypeError"
+  dictUpdate := fun d u => match d, u with
+    | .dict ks vs, .dict ks' vs' => .ok (.dict (ks ++ ks') (vs ++ vs'))
+    | _, _ => .error "TypeError"
+  kwItems := fun v => match v with
+    | .dict ks vs => .ok ((ks.zip vs).filterMap (fun p => match p.1 with | .str s => some (s, p.2) | _ => none))
+    | _ => .error "TypeError"
+  callkw := fun f _ _ => .ok f
+  format := fun v _ _ => .ok (.str (match v with | .str s => s | .int i => toString i | _ => "<value>"))
+  join := fun vs => .ok (.str (String.join (vs.map (fun v => match v with | .str s => s | _ => "<value>"))))
 
 def env0 : Env := ⟨[], []⟩
 
@@ -46,6 +66,17 @@ theorem C06_recomputed_values_are_pythons_false :
       (allIds e).Nodup → pyEval ops env e = .ok (v, P) →
       (visit ops env.builtins (Tbl.ofNames env.names) e).out = .ok (some v) ∧
       (visit ops env.builtins (Tbl.ofNames env.names) e).log.filter (fun p => !(innerIds e).contains p.1) = P := by
+  intro H
+  have h := (H ops0 env0 e1 _ _ nodup_e1 py_e1).1
+  rw [visit_e1] at h
+  cases h
+
+/-- the same for the second-version statement (permutation instead of equality) -/
+theorem C06_recomputed_values_are_pythons_perm_false :
+    ¬ ∀ (ops : Ops) (env : Env) (e : Expr) (v : Val) (P : Log),
+      (allIds e).Nodup → pyEval ops env e = .ok (v, P) →
+      (visit ops env.builtins (Tbl.ofNames env.names) e).out = .ok (some v) ∧
+      ((visit ops env.builtins (Tbl.ofNames env.names) e).log.filter (fun p => !(innerIds e).contains p.1)).Perm P := by
   intro H
   have h := (H ops0 env0 e1 _ _ nodup_e1 py_e1).1
   rw [visit_e1] at h
